@@ -222,19 +222,41 @@ def extract(func, loops=None, overrides=None, vc=None, module_overrides=None):
                 f'{func.__qualname__}: global `{name}` not in its namespace')
         ns[name] = repl
     ns['__vc'] = vc
-    # free variables of methods that use `super()` are not supported
+    rewrote_super = False
+    # zero-argument `super()` needs the `__class__` cell: rewrite it to the
+    # explicit two-argument form with the owning class (resolved by qualname)
     if func.__code__.co_freevars:
-        raise Unsupported(f'{func.__qualname__}: closure / super() not supported')
+        if func.__code__.co_freevars != ('__class__',):
+            raise Unsupported(f'{func.__qualname__}: closures not supported')
+        owner = func.__globals__
+        obj = None
+        for part in func.__qualname__.split('.')[:-1]:
+            obj = owner[part] if obj is None else getattr(obj, part)
+        if obj is None or not fdef.args.args:
+            raise Unsupported(f'{func.__qualname__}: cannot resolve owning class')
+        first = fdef.args.args[0].arg
+        for node in ast.walk(tree):
+            if (isinstance(node, ast.Call) and isinstance(node.func, ast.Name)
+                    and node.func.id == 'super' and not node.args):
+                node.args = [ast.Name(id='__ovc_class', ctx=ast.Load()),
+                             ast.Name(id=first, ctx=ast.Load())]
+        ast.fix_missing_locations(tree)
+        ns['__ovc_class'] = obj
+        rewrote_super = True
     code = compile(tree, f'<ovc:{func.__module__}.{func.__qualname__}>', 'exec')
     exec(code, ns)
     new = ns[fdef.name]
+    # a stub for the function's own name (recursive call by contract)
+    if overrides and fdef.name in overrides:
+        ns[fdef.name] = overrides[fdef.name]
     info = dict(
         function=f'{func.__module__}.{func.__qualname__}',
         source_lines=len(src.splitlines()),
         cut={k: v for k, v in cutter.cut.items()},
         n_loops=cutter.ordinal + 1,
-        dropped='back edges of loops ' + str(sorted(cutter.cut)) if cutter.cut
-        else 'nothing')
+        dropped=('back edges of loops ' + str(sorted(cutter.cut)) if cutter.cut
+                 else 'nothing') + ('; zero-argument super() rewritten to '
+                                    'super(<owning class>, self)' if rewrote_super else ''))
     return new, info
 
 
